@@ -31,7 +31,8 @@ Persisted(obs) == <<obs.wf, obs.seq, obs.staged, obs.ctxs, obs.routes, obs.ptr, 
                     obs.hasout, obs.out, obs.reruns>>
 
 StagedReady(obs) == {i \in 1..Len(obs.staged) : obs.staged[i].ready /\ ~obs.staged[i].completed}
-Quiescent(step)  == step.obs.q /\ step.obs.infl = << >> /\ step.obs.offers = << >>
+(* nothing outstanding at the provider (in flight, or dormant and awaiting an answer/resume) and nothing on offer *)
+Quiescent(step)  == step.obs.q /\ step.obs.infl = << >> /\ step.obs.dorm = << >> /\ step.obs.offers = << >>
 HasErr(obs, cls) == \E i \in 1..Len(obs.errs) : obs.errs[i].cls = cls
 ErrOn(obs, cls, t) == \E i \in 1..Len(obs.errs) : obs.errs[i].cls = cls /\ obs.errs[i].task = t
 NewErrs(prev, obs, cls) == {i \in (Len(prev.errs) + 1)..Len(obs.errs) : obs.errs[i].cls = cls}
@@ -60,6 +61,7 @@ HInit(d) ==
     gen      |-> << >>,                            \* join instance (Rid) -> [arr, fired]
     doomed   |-> FALSE,                            \* unhandled failure / fail command / runtime error
     cleanup  |-> {},                               \* tasks listed beside a fail command
+    cleanupDue |-> {},                             \* ... by the completion just processed (checked at the next query)
     term     |-> "none",                           \* first terminal status
     pauseReq |-> FALSE, cancelReq |-> FALSE,
     pauseCause |-> FALSE,
@@ -67,9 +69,14 @@ HInit(d) ==
     rerun    |-> FALSE,                            \* an accepted rerun happened (C17 owns what follows)
     retried  |-> FALSE,                            \* this step's completion was retried
     compl    |-> << >>,                            \* this step's completion: [] or [t, r, st, dec]
+    its      |-> << >>,                            \* with-items execution (Rid) -> [started, st]
+    att      |-> << >>,                            \* (Rid) -> attempts started in the current visit
     fin      |-> {} ]                              \* indices of records whose decisions are final
 
 GenOf(h, k) == IF k \in DOMAIN h.gen THEN h.gen[k] ELSE NoGen
+NoIts == [started |-> {}, st |-> << >>]
+ItsOf(h, k) == IF k \in DOMAIN h.its THEN h.its[k] ELSE NoIts
+AttOf(h, k) == IF k \in DOMAIN h.att THEN h.att[k] ELSE 0
 
 (* One arrival of inbound task p at join instance k = Rid(j, r). A second arrival of the same  *)
 (* inbound task opens a new generation (loops).                                                *)
@@ -137,14 +144,28 @@ HStepCore(d, h, prev, step) ==
          IF IsNewExec(prev, step)
          THEN [h0 EXCEPT !.tok[c.task]   = IF @ > 0 THEN @ - 1 ELSE 0,
                          !.execd[c.task] = @ + 1,
+                         !.its = (Rid(c.task, c.route) :> [started |-> IF c.item >= 0 THEN {c.item} ELSE {}, st |-> << >>]) @@ @,
+                         !.att = (Rid(c.task, c.route) :>
+                                    IF RecSt(prev, c.task, c.route) = "retrying" THEN AttOf(h0, Rid(c.task, c.route)) + 1 ELSE 1) @@ @,
                          !.gen = IF IsJoin(d, c.task)
                                  THEN (Rid(c.task, c.route) :> [GenOf(h0, Rid(c.task, c.route)) EXCEPT !.started = TRUE]) @@ @
                                  ELSE @]
+         ELSE IF step.ret = "ok" /\ c.item >= 0
+         THEN [h0 EXCEPT !.its = (Rid(c.task, c.route) :> [ItsOf(h0, Rid(c.task, c.route)) EXCEPT !.started = @ \cup {c.item}]) @@ @]
          ELSE h0
     [] c.op = "report" ->
-         LET h1 == [h0 EXCEPT !.pauseCause = @ \/ c.st \in {"pending", "paused"}] IN
+         LET hA == [h0 EXCEPT !.pauseCause = @ \/ c.st \in {"pending", "paused"}]
+             h1 == IF c.item >= 0
+                   THEN [hA EXCEPT !.its = (Rid(c.task, c.route) :>
+                            [ItsOf(hA, Rid(c.task, c.route)) EXCEPT !.st = (c.item :> c.st) @@ @]) @@ @]
+                   ELSE hA
+         IN
          IF IsRetried(prev, step)
-         THEN [h1 EXCEPT !.tok[c.task] = @ + 1, !.just[c.task] = @ + 1, !.retried = TRUE]
+         THEN [h1 EXCEPT !.tok[c.task] = @ + 1, !.just[c.task] = @ + 1, !.retried = TRUE,
+                         \* a retried join instance is armed again (same generation)
+                         !.gen = IF IsJoin(d, c.task)
+                                 THEN (Rid(c.task, c.route) :> [GenOf(h1, Rid(c.task, c.route)) EXCEPT !.started = FALSE]) @@ @
+                                 ELSE @]
          ELSE IF IsCompletion(prev, step)
          THEN LET rec == Rec(obs, c.task, c.route)
                   dec == Decide(d, c.task, rec.st, TaskResult(d, step), CtxOf(obs, rec.ctxin))
@@ -153,15 +174,21 @@ HStepCore(d, h, prev, step) ==
               IN [h2 EXCEPT !.doomed  = @ \/ unh \/ ExprTrouble(dec),
                             !.cleanup = IF "fail" \in SatTargets(dec)
                                         THEN @ \cup (SatTargets(dec) \ Cmds) ELSE @,
+                            !.cleanupDue = IF "fail" \in SatTargets(dec)
+                                           THEN {x \in SatTargets(dec) \ Cmds : ~IsJoin(d, x) /\ ~HasItems(d, x)} ELSE {},
                             !.compl   = <<[t |-> c.task, r |-> c.route, st |-> rec.st, dec |-> dec]>>]
          ELSE h1
+    [] c.op = "query" -> [h0 EXCEPT !.cleanupDue = {}]
     [] c.op = "rerun" ->
          IF step.ret = "ok" THEN [h0 EXCEPT !.rerun = TRUE, !.doomed = FALSE, !.term = "none"] ELSE h0
     [] OTHER -> h0
 
 (* a run-time expression error recorded by this call dooms the workflow as well *)
 HStep(d, h, prev, step) ==
-  [HStepCore(d, h, prev, step) EXCEPT !.doomed = @ \/ NewErrs(prev, step.obs, "expr") # {}]
+  [HStepCore(d, h, prev, step) EXCEPT
+     !.doomed = @ \/ NewErrs(prev, step.obs, "expr") # {},
+     \* the workflow is (still) paused while some task execution is pending or paused
+     !.pauseCause = @ \/ (step.obs.wf = "paused" /\ \E i \in 1..Len(step.obs.seq) : step.obs.seq[i].st \in DormantSt)]
 
 (* the terminal-status latch is updated after the clauses of the step have been evaluated     *)
 HLatch(h, step) ==
@@ -184,6 +211,10 @@ NewOffers(step, t) == {i \in 1..Len(step.obs.offers) :
 C01_offer_complete(d, h1, step) ==
   (step.obs.q /\ step.obs.wf \in {"running", "resuming"} /\ ~h1.rerun) =>
      \A t \in TaskNames(d) : Cardinality(NewOffers(step, t)) = h1.tok[t]
+(* the clean-up tasks listed beside a fail command are offered although the workflow failed *)
+C01_cleanup_offered(d, h0, step) ==
+  (step.obs.q /\ step.obs.wf = "failed" /\ ~h0.rerun) =>
+     \A t \in h0.cleanupDue : NewOffers(step, t) # {}
 C01_offer_known(d, step) ==
   \A i \in 1..Len(step.obs.offers) : step.obs.offers[i].id \in TaskNames(d)
 C01_start_consumes(d, h0, prev, step) ==
@@ -212,7 +243,7 @@ C01_decisions(d, h1, step) ==
 C02_succeeded(d, h1, step) ==
   step.obs.wf = "succeeded" =>
     /\ \A i \in 1..Len(step.obs.seq) : step.obs.seq[i].st \in Completed
-    /\ step.obs.infl = << >> /\ step.obs.dorm = << >>
+    /\ step.obs.infl = << >>
     /\ StagedReady(step.obs) = {}
     /\ step.obs.offers = << >>
     /\ ~h1.doomed
@@ -294,6 +325,95 @@ C10_output(d, prev, step) ==
      /\ step.obs.wf = "canceled"
      /\ (Len(d.output) > 0 /\ NewErrs(prev, step.obs, "expr") = {}) => step.obs.hasout
 
+(* C12: with-items. *)
+ItemOffers(d, step) == {i \in 1..Len(step.obs.offers) : step.obs.offers[i].nitems >= 0}
+InFlightOf(obs, t, r) == {k \in 1..Len(obs.infl) : obs.infl[k][1] = t /\ obs.infl[k][2] = r /\ obs.infl[k][3] >= 0}
+WindowOf(d, t, n) == LET c == d.tasks[t].conc IN IF c = -1 THEN n ELSE IF c <= 0 THEN 1 ELSE c
+StartedOf(h, obs, t, r) == IF OpenRec(obs, t, r) THEN ItsOf(h, Rid(t, r)).started ELSE {}
+C12_shape(d, step) ==
+  step.obs.q => \A i \in 1..Len(step.obs.offers) :
+     LET o == step.obs.offers[i] IN
+     /\ (o.id \in TaskNames(d) /\ HasItems(d, o.id)) <=> o.nitems >= 0
+     /\ o.nitems >= 0 => (o.nitems = d.tasks[o.id].items /\ o.nact = Len(o.items))
+C12_once(d, h1, step) ==
+  step.obs.q => \A i \in ItemOffers(d, step) :
+     LET o == step.obs.offers[i] IN
+     \A k \in 1..Len(o.items) : o.items[k] \notin StartedOf(h1, step.obs, o.id, o.route)
+C12_order(d, h1, step) ==
+  step.obs.q => \A i \in ItemOffers(d, step) :
+     LET o == step.obs.offers[i]
+         rest == {x \in 0..(o.nitems - 1) : x \notin StartedOf(h1, step.obs, o.id, o.route)}
+     IN \A k \in 1..Len(o.items) :
+          /\ o.items[k] \in rest
+          /\ Cardinality({x \in rest : x < o.items[k]}) = k - 1
+C12_window(d, step) ==
+  step.obs.q => \A i \in ItemOffers(d, step) :
+     LET o == step.obs.offers[i] IN
+     Len(o.items) + Cardinality(InFlightOf(step.obs, o.id, o.route)) <= WindowOf(d, o.id, o.nitems)
+(* with nothing failed and neither pause nor cancel in effect the window is used in full *)
+C12_all(d, h1, step) ==
+  (step.obs.q /\ step.obs.wf = "running" /\ ~h1.pauseReq /\ ~h1.cancelReq) =>
+    \A i \in ItemOffers(d, step) :
+       LET o == step.obs.offers[i]
+           k == Rid(o.id, o.route)
+           started == StartedOf(h1, step.obs, o.id, o.route)
+           rest == {x \in 0..(o.nitems - 1) : x \notin started}
+           room == WindowOf(d, o.id, o.nitems) - Cardinality(InFlightOf(step.obs, o.id, o.route))
+           anyBad == \E x \in DOMAIN ItsOf(h1, k).st : ItsOf(h1, k).st[x] \notin {"succeeded", "running"}
+       IN (OpenRec(step.obs, o.id, o.route) /\ ~anyBad) =>
+             Len(o.items) = (IF Cardinality(rest) < room THEN Cardinality(rest) ELSE room)
+C12_succ_iff(d, h1, prev, step) ==
+  (IsCompletion(prev, step) /\ HasItems(d, step.call.task)) =>
+     LET k == Rid(step.call.task, step.call.route)
+         n == d.tasks[step.call.task].items
+         it == ItsOf(h1, k)
+         allOk == \A x \in 0..(n - 1) : x \in DOMAIN it.st /\ it.st[x] = "succeeded"
+     IN RecSt(step.obs, step.call.task, step.call.route) = "succeeded" <=> allOk
+C12_drain(d, prev, step) ==
+  (IsCompletion(prev, step) /\ HasItems(d, step.call.task)) =>
+     InFlightOf(step.obs, step.call.task, step.call.route) = {}
+C12_empty(d, prev, step) ==
+  (IsCompletion(prev, step) /\ HasItems(d, step.call.task) /\ d.tasks[step.call.task].items = 0) =>
+     RecSt(step.obs, step.call.task, step.call.route) = "succeeded"
+
+(* C13: retry. *)
+RetryCount(d, t) == IF d.tasks[t].retry.on THEN d.tasks[t].retry.count ELSE IF RetryCmd(d, t) THEN 3 ELSE 0
+RetryWhenOf(d, t) ==
+  IF d.tasks[t].retry.on THEN d.tasks[t].retry.when
+  ELSE LET i == CHOOSE i \in 1..Len(d.tasks[t].next) :
+                  \E j \in 1..Len(d.tasks[t].next[i].do) : d.tasks[t].next[i].do[j] = "retry"
+       IN IF d.tasks[t].next[i].when.k = "always" THEN [k |-> "completed", v |-> "", n |-> 0] ELSE d.tasks[t].next[i].when
+AttemptStatus(d, h1, step) ==                        \* status of the attempt that has just reported
+  IF ~HasItems(d, step.call.task)
+  THEN (CASE step.call.st = "succeeded" -> "succeeded" [] step.call.st \in Abended -> "failed" [] OTHER -> step.call.st)
+  ELSE LET it == ItsOf(h1, Rid(step.call.task, step.call.route)) IN
+       IF \E x \in DOMAIN it.st : it.st[x] \in Abended THEN "failed"
+       ELSE IF \E x \in DOMAIN it.st : it.st[x] = "canceled" THEN "canceled" ELSE "succeeded"
+C13_bound(d, h1, prev, step) ==
+  IsNewExec(prev, step) => AttOf(h1, Rid(step.call.task, step.call.route)) <= RetryCount(d, step.call.task) + 1
+C13_cond(d, h1, prev, step) ==
+  IsRetried(prev, step) =>
+     LET t  == step.call.task
+         st == AttemptStatus(d, h1, step)
+         w  == RetryWhenOf(d, t)
+         rec == Rec(step.obs, t, step.call.route)
+     IN /\ RetryCount(d, t) > 0
+        /\ AttOf(h1, Rid(t, step.call.route)) <= RetryCount(d, t)
+        /\ IF w.k = "default" THEN st \in Abended
+           ELSE EvalCond(w, st, TaskResult(d, step), CtxOf(step.obs, rec.ctxin)) = "T"
+C13_silent(prev, step) ==
+  IsRetried(prev, step) =>
+     LET rec == Rec(step.obs, step.call.task, step.call.route) IN
+     /\ DOMAIN rec.next = {}
+     /\ Len(step.obs.ctxs) = Len(prev.ctxs)
+     /\ step.obs.wf = "failed" => prev.wf = "failed"
+C13_delay(d, step) ==
+  step.obs.q => \A i \in 1..Len(step.obs.offers) :
+     LET o == step.obs.offers[i] IN
+     IF RecSt(step.obs, o.id, o.route) = "retrying"
+     THEN o.delay = (IF d.tasks[o.id].retry.on /\ d.tasks[o.id].retry.delay > 0 THEN d.tasks[o.id].retry.delay ELSE 0)
+     ELSE o.id \in TaskNames(d) => o.delay = d.tasks[o.id].delay
+
 (* C15/C11 (soundness half): no internal error escapes an API call. *)
 C15_internal_error(step) == step.ret = "ok" \/ step.ret \in Rejections
 
@@ -322,6 +442,7 @@ FP(prop, name, ok) == IF ok THEN {} ELSE {<<prop, name>>}
 Failing(d, h0, h1, prev, step) ==
   FP("C01", "C01_offer_justified", C01_offer_justified(d, h1, step)) \cup
   FP("C01", "C01_offer_complete",  C01_offer_complete(d, h1, step)) \cup
+  FP("C01", "C01_cleanup_offered", C01_cleanup_offered(d, h0, step)) \cup
   FP("C01", "C01_offer_known",     C01_offer_known(d, step)) \cup
   FP("C01", "C01_start_consumes",  C01_start_consumes(d, h0, prev, step)) \cup
   FP("C01", "C01_success_exact",   C01_success_exact(d, h1, step)) \cup
@@ -347,6 +468,18 @@ Failing(d, h0, h1, prev, step) ==
   FP("C10", "C10_no_offer",        C10_no_offer(h1, step)) \cup
   FP("C10", "C10_status",          C10_status(h1, step)) \cup
   FP("C10", "C10_output",          C10_output(d, prev, step)) \cup
+  FP("C12", "C12_shape",           C12_shape(d, step)) \cup
+  FP("C12", "C12_once",            C12_once(d, h1, step)) \cup
+  FP("C12", "C12_order",           C12_order(d, h1, step)) \cup
+  FP("C12", "C12_window",          C12_window(d, step)) \cup
+  FP("C12", "C12_all",             C12_all(d, h1, step)) \cup
+  FP("C12", "C12_succ_iff",        C12_succ_iff(d, h1, prev, step)) \cup
+  FP("C12", "C12_drain",           C12_drain(d, prev, step)) \cup
+  FP("C12", "C12_empty",           C12_empty(d, prev, step)) \cup
+  FP("C13", "C13_bound",           C13_bound(d, h1, prev, step)) \cup
+  FP("C13", "C13_cond",            C13_cond(d, h1, prev, step)) \cup
+  FP("C13", "C13_silent",          C13_silent(prev, step)) \cup
+  FP("C13", "C13_delay",           C13_delay(d, step)) \cup
   FP("C15", "C15_internal_error",  C15_internal_error(step)) \cup
   FP("C18", "C18_seq_prefix",      C18_seq_prefix(prev, step)) \cup
   FP("C18", "C18_ctxs_prefix",     C18_ctxs_prefix(prev, step)) \cup
@@ -368,7 +501,26 @@ KF_C07_late_arrival_after_fire(d, h1, step) ==
           /\ Need(d, o.id) < Cardinality(Inbound(d, o.id))
           /\ Cardinality(g.arr) > Need(d, o.id)
 
+(* S8b: the same late arrival while the join is a with-items task whose execution is open but   *)
+(* has no item in flight (e.g. held by a pause): its items list is reset and items that already *)
+(* ran are offered again.                                                                     *)
+KF_C12_items_reset_by_late_arrival(d, h1, step) ==
+  \/ /\ step.ret = "KeyError" /\ step.call.op \in {"report", "start"} /\ step.call.item >= 0
+     /\ LET t == step.call.task  g == GenOf(h1, Rid(t, step.call.route)) IN
+        /\ IsJoin(d, t) /\ g.fired /\ g.started
+        /\ Need(d, t) < Cardinality(Inbound(d, t)) /\ Cardinality(g.arr) > Need(d, t)
+  \/ /\ step.obs.q
+     /\ \E i \in ItemOffers(d, step) :
+          LET o == step.obs.offers[i]
+              g == GenOf(h1, Rid(o.id, o.route))
+          IN /\ IsJoin(d, o.id) /\ OpenRec(step.obs, o.id, o.route)
+             /\ g.fired /\ g.started
+             /\ Need(d, o.id) < Cardinality(Inbound(d, o.id))
+             /\ Cardinality(g.arr) > Need(d, o.id)
+             /\ \E k \in 1..Len(o.items) : o.items[k] \in ItsOf(h1, Rid(o.id, o.route)).started
+
 Signatures(d, h0, h1, prev, step) ==
-  F("KF_C07_late_arrival_after_fire", ~KF_C07_late_arrival_after_fire(d, h1, step))
+  F("KF_C07_late_arrival_after_fire", ~KF_C07_late_arrival_after_fire(d, h1, step)) \cup
+  F("KF_C12_items_reset_by_late_arrival", ~KF_C12_items_reset_by_late_arrival(d, h1, step))
 
 =============================================================================
